@@ -1,9 +1,14 @@
 (** * C11 runner: histories of candidate holes on the Polygon model (primitive floats); outcome class and
     the complete polygon state (area, normal, outer vertices, every inner loop) compared after every call. *)
 From G3 Require Export Run.PolyCommon.
+From G3 Require Import Run.FastNum32.
 
 (** (outcome, [area; nx; ny; nz], outer vertices, inner loops) *)
 Definition PSnap := (N * list spec_float * list spec_float * list LoopIn)%type.
+(** the runner text is written once, in a section over the number instance: [C11] on [NumF] (f64 build), [C11f32] on
+    [NumF32fast] (= [NumF32], Run/FastNum32Proof.v) for the build with `--features float`; bit for bit in both *)
+Section WithInstance.
+Context {NK : Num float}.
 Definition poly_eqb (P : Poly K) (e : PSnap) : bool :=
   let '(_, an, ov, inner) := e in
   sfl_eqb (Prim2SF (parea P) :: vec_sf (pnormal P)) an && sfl_eqb (flat (verts (pouter P))) ov && loops_eqb (pinner P) inner.
@@ -27,6 +32,11 @@ Definition chk (c : LoopIn * PSnap * list LoopIn * list PSnap) : N :=
   | _ => 0%N
   end.
 
+End WithInstance.
+
 Module C11.
-  Definition run := run_cases chk.
+  Definition run := run_cases (@chk NumF).
 End C11.
+Module C11f32.
+  Definition run := run_cases (@chk NumF32fast).
+End C11f32.
